@@ -16,8 +16,13 @@ import TexcraftModel.Model.C01
 * `4 pre f`                      font selector `f` (only `pre % 10` counts)
 * `5 0 kind idx` / `5 1 tk tn` / `5 2 0 0`   read a variable / a command / the current font
 
+Only `kind % 10` counts in `2 …` and `5 0 …` (the tens digit of the kind of a read, like the
+hundreds of `pre`, tells the harness to go through a register alias).
+
 Reply: `S | T | V0 | … | V7`: the specification's outputs, one annotation per op (`L`/`G` effective
-scope of an assignment, `N` a `\let` to an undefined name, `-` otherwise, then `D<maxdepth>`), and the
+scope of an assignment, `N` a `\let` to an undefined name, `-` otherwise; on an assignment to / a read
+of a variable followed by `:` and the names `c<n>`/`x<n>` that are register aliases of that variable
+in the specification's current environment; then `D<maxdepth>`), and the
 model's outputs for the 8 variants (bit 0 = fixA, bit 1 = fixB, bit 2 = fixC; `V7` = the fixed code).
 Output words: `u` unit, `EG` no group to end, `EP` cannot be prefixed, `PANIC`; `d` / `i<x>` variable
 (initial / value), `?` undefined command, `m<n>` macro, `c<n>` char, `M<n>` math char,
@@ -53,7 +58,7 @@ def decOps : Nat → Cur → Option (List Op)
   | fuel + 1, 0 :: t => (decOps fuel t).map (Op.beginGroup :: ·)
   | fuel + 1, 1 :: t => (decOps fuel t).map (Op.endGroup :: ·)
   | fuel + 1, 2 :: pre :: k :: i :: x :: t => do
-    let kind ← kindOf k
+    let kind ← kindOf (k % 10)
     if pre < 0 ∨ i < 0 then none
     let rest ← decOps fuel t
     pure (Op.assign (pre.toNat % 10) ⟨kind, i.toNat⟩ x :: rest)
@@ -68,7 +73,7 @@ def decOps : Nat → Cur → Option (List Op)
     let rest ← decOps fuel t
     pure (Op.selectFont (pre.toNat % 10) f.toNat :: rest)
   | fuel + 1, 5 :: 0 :: k :: i :: t => do
-    let kind ← kindOf k
+    let kind ← kindOf (k % 10)
     if i < 0 then none
     let rest ← decOps fuel t
     pure (Op.read (.var ⟨kind, i.toNat⟩) :: rest)
@@ -102,14 +107,28 @@ def showOut : Out → String
 
 def showOuts (l : List Out) : String := " ".intercalate (l.map showOut)
 
+/-- The command names (of the harness's vocabulary) that are register aliases of `v` in `e`. -/
+def aliasesOf (e : Env) (v : Var) : List String :=
+  ((List.range 8).filterMap (fun n =>
+      if e.cs n = some (.alias v) then some ("c" ++ toString n) else none)) ++
+  ((List.range 4).filterMap (fun n =>
+      if e.act n = some (.alias v) then some ("x" ++ toString n) else none))
+
+def withAliases (tag : String) (e : Env) (v : Var) : String :=
+  match aliasesOf e v with
+  | [] => tag
+  | l => tag ++ ":" ++ ",".intercalate l
+
 /-- Annotation of one op in the specification state before it. -/
 def annot (s : Spec) : Op → String
-  | .assign pre _ _ => match Spec.effScope s.globalDefs pre with | .loc => "L" | .glob => "G"
+  | .assign pre v _ =>
+    withAliases (match Spec.effScope s.globalDefs pre with | .loc => "L" | .glob => "G") s.cur v
   | .selectFont pre _ => match Spec.effScope s.globalDefs pre with | .loc => "L" | .glob => "G"
   | .define pre _ d =>
     match Spec.resolveDef s.cur d with
     | none => "N"
     | some _ => match defScope d (Spec.effScope s.globalDefs pre) with | .loc => "L" | .glob => "G"
+  | .read (.var v) => withAliases "-" s.cur v
   | _ => "-"
 
 def annots : Spec → List Op → Nat → List String
